@@ -208,6 +208,9 @@ func (g *DirectedGraph) RemoveLine(fid, tid, id int64) {
 		return
 	}
 
+	if _, ok := g.from[fid][tid][id]; !ok {
+		return
+	}
 	delete(g.from[fid][tid], id)
 	if len(g.from[fid][tid]) == 0 {
 		delete(g.from[fid], tid)
